@@ -43,7 +43,7 @@ use std::ffi::{c_char, CStr, CString};
 use std::sync::mpsc::{channel, Receiver, Sender};
 use std::sync::{Arc, Mutex};
 
-pub const NV: usize = 28; // value handle slots
+pub const NV: usize = 30; // value handle slots
 pub const NS: usize = 4; // returned-string slots
 pub const NF: usize = 3; // filter handle slots
 pub const NB: usize = 3; // borrowed entry pointer slots
